@@ -9,7 +9,8 @@
 (*          nph  : 0..2,                  0: text only ("ab", or with      *)
 (*                                        escapes when post: "a{{b}}");   *)
 (*                                        2: a second placeholder `{1}`    *)
-(*          ref  : "next","pos0","pos1","pos2","name_field","name_other",  *)
+(*          ref  : "next","pos0","pos1","pos2","pos_wrap0","name_field",   *)
+(*                 "name_other",                                           *)
 (*          ty   : one of the 11 format types,                             *)
 (*          mod  : "none","ws" (`{x }`),"colon" (`{x:}`),"colon_ws"        *)
 (*                 (`{x: }`),"width","fill","left","center","right",       *)
@@ -36,7 +37,7 @@ NArgs(a) == CASE a = "none" -> 0 [] a = "two" -> 2 [] OTHER -> 1
 Denotes(lit, args) ==
     CASE lit.ref \in {"next", "pos0"} -> IF NArgs(args) >= 1 THEN "arg1" ELSE "error"
       [] lit.ref = "pos1" -> IF NArgs(args) >= 2 THEN "arg2" ELSE "error"
-      [] lit.ref = "pos2" -> "error"
+      [] lit.ref \in {"pos2", "pos_wrap0"} -> "error"        \* pos_wrap0: the index 2^64, which is 0 modulo 2^64
       [] lit.ref = "name_field" -> IF args = "none" THEN "field"
                                    ELSE IF args = "named_match" THEN "arg1" ELSE "error"   \* unused argument
       [] lit.ref = "name_other" -> IF args = "named_match" THEN "arg1" ELSE "error"
@@ -75,7 +76,7 @@ ImplTransparent(lit, args) ==
     /\ Bare(lit)                                  \* (1) one placeholder consuming the literal, (2) no modifiers
     /\ CASE lit.ref = "next" -> NArgs(args) = 1
          [] lit.ref = "pos0" -> NArgs(args) = 1
-         [] lit.ref \in {"pos1", "pos2"} -> IF IndexChecked THEN FALSE ELSE NArgs(args) = 1
+         [] lit.ref \in {"pos1", "pos2", "pos_wrap0"} -> IF IndexChecked THEN FALSE ELSE NArgs(args) = 1
          [] lit.ref \in {"name_field", "name_other"} -> args = "none" \/ args = "named_match"
 
 ImplOutcome(hasAttr, nfields, D, lit, args) ==
